@@ -138,7 +138,7 @@ def _dump(v, mode="python"):
 
 
 # ------------------------------------------------------ clip evaluations
-MATCH_PATTERNS = ["correct", "missing_one", "dup_source", "dup_target", "foreign_source", "foreign_target", "one_sided", "both_none", "extra_unpaired_dup", "shuffled", "dup_source_modified_copy", "dup_target_modified_copy"]
+MATCH_PATTERNS = ["twin_source", "twin_target", "correct", "missing_one", "dup_source", "dup_target", "foreign_source", "foreign_target", "one_sided", "both_none", "extra_unpaired_dup", "shuffled", "dup_source_modified_copy", "dup_target_modified_copy"]
 
 
 def arrangement(rng, na, npred, pattern):
@@ -159,6 +159,13 @@ def arrangement(rng, na, npred, pattern):
         m.append([f"M{rng.randrange(npred)}", None])     # same uuid, other content (re-scored prediction)
     elif pattern == "dup_target_modified_copy" and na:
         m.append([None, f"M{rng.randrange(na)}"])        # same uuid, other content (annotation with an extra tag)
+    elif pattern == "twin_source" and npred:
+        # an object equal in content to a predicted sound event but with its own uuid stands in for it
+        k = rng.randrange(npred)
+        m = [[f"T{k}" if s == k else s, t] for s, t in m]
+    elif pattern == "twin_target" and na:
+        k = rng.randrange(na)
+        m = [[s, f"T{k}" if t == k else t] for s, t in m]
     elif pattern == "foreign_source":
         m.append(["F", None])
     elif pattern == "foreign_target":
@@ -180,6 +187,8 @@ def ref_clip_evaluation(na, npred, same_clip, matches, score):
     if any(s is None and t is None for s, t in matches):
         return False
     _i = lambda x: int(x[1:]) if isinstance(x, str) and x.startswith("M") else x
+    if any(isinstance(x, str) and x.startswith("T") for st in matches for x in st):
+        return False    # a twin (equal content, other uuid) is a foreign event
     src = [_i(s) for s, _ in matches if s is not None]
     tgt = [_i(t) for _, t in matches if t is not None]
     if len(src) != len(set(src)) or len(tgt) != len(set(tgt)):
@@ -214,6 +223,8 @@ def judge_clip_evaluation(ctx, seed, na, npred, same_clip, matches, score, id_ov
         ms = []
         for s, t in matches:
             def mod(x, pool, kind):
+                if isinstance(x, str) and x.startswith("T"):
+                    return pool[int(x[1:])].model_copy(update={"uuid": g.uid()})
                 if isinstance(x, str) and x.startswith("M"):
                     base = pool[int(x[1:])]
                     if kind == "pred":
@@ -357,6 +368,9 @@ def judge_project(ctx, seed, n_ann, task_pattern):
             tc = [extra]
         elif task_pattern == "copy_of_clip":
             tc = [c.model_copy(deep=True) for c in clips]
+        elif task_pattern == "twin_of_first" and clips:
+            # a different clip (own uuid) covering exactly the same segment of the same recording: not the annotated clip
+            tc = clips[1:] + [clips[0].model_copy(update={"uuid": g.uid()})]
         else:
             tc = clips + clips[:1]
         tasks = [data.AnnotationTask(uuid=g.uid(), clip=c, created_on=g.dt()) for c in tc]
@@ -499,6 +513,18 @@ def judge_aoef_project(ctx, seed, edit):
             ctx.note("aoef_edit_not_applicable")
             return
         d["tasks"].pop(g.rng.choice(idx))
+    elif edit == "task_moved_to_twin_clip":
+        # the task of an annotated clip now points at a new clip entry with the same recording / start / end but its own uuid
+        idx = [i for i, t in enumerate(d.get("tasks") or []) if t["clip"] in ann_clips]
+        if not idx:
+            ctx.note("aoef_edit_not_applicable")
+            return
+        t = d["tasks"][g.rng.choice(idx)]
+        src = next(c for c in d["clips"] if c["uuid"] == t["clip"])
+        twin = dict(src, uuid=str(g.uid()))
+        d["clips"].append(twin)
+        t["clip"] = twin["uuid"]
+        want = False
     elif edit == "drop_all_tasks":
         if not ann_clips:
             ctx.note("aoef_edit_not_applicable")
@@ -571,18 +597,19 @@ def run(ctx):
             ctx.case(("clip", "lt" if s < e else "eq" if s == e else "gt", "strings" if strings else "numbers"), {"kind": "clip", "start": s, "end": e, "as_strings": strings})
             judge_clip(ctx, s, e, strings)
     # projects
-    for n_ann in (0, 1, 2, 3):
-        for pat in ("all", "all_plus_extra", "missing_one", "none", "only_extra", "copy_of_clip", "duplicated_task"):
-            seed = rng.getrandbits(32)
-            ctx.case(("project", n_ann, pat), {"kind": "project", "seed": seed, "n_ann": n_ann, "tasks": pat}, nontrivial=n_ann > 0)
-            judge_project(ctx, seed, n_ann, pat)
+    for _rep in range(ctx.scale(4, 12)):
+        for n_ann in (0, 1, 2, 3):
+            for pat in ("all", "all_plus_extra", "missing_one", "none", "only_extra", "copy_of_clip", "duplicated_task", "twin_of_first"):
+                seed = rng.getrandbits(32)
+                ctx.case(("project", n_ann, pat), {"kind": "project", "seed": seed, "n_ann": n_ann, "tasks": pat}, nontrivial=n_ann > 0)
+                judge_project(ctx, seed, n_ann, pat)
     # AOEF path
     for _ in range(ctx.scale(10, 40)):
         for edit in AOEF_EDITS:
             seed = rng.getrandbits(32)
             ctx.case(("aoef_evaluation", edit), {"kind": "aoef_evaluation", "seed": seed, "edit": edit})
             judge_aoef_evaluation(ctx, seed, edit)
-        for edit in ("none", "drop_task_of_annotated_clip", "drop_task_of_other_clip", "drop_all_tasks"):
+        for edit in ("none", "drop_task_of_annotated_clip", "drop_task_of_other_clip", "drop_all_tasks", "task_moved_to_twin_clip"):
             seed = rng.getrandbits(32)
             ctx.case(("aoef_project", edit), {"kind": "aoef_project", "seed": seed, "edit": edit})
             judge_aoef_project(ctx, seed, edit)
